@@ -346,19 +346,34 @@ FromLit(st, s, dbs) ==
 ItemVals(st, w, items) ==
   [i \in Idx(w.rows) |-> [m \in Idx(items) |-> Eval(items[m].e, st.frame, w.rows[i].v, CtxOf(st, w, i))]]
 
+\* `t.*` in a select list: the columns of input t that are in the frame, in frame order
+StarCols(fr, q) == SelectSeq([i \in Idx(fr) |-> i], LAMBDA i : fr[i].src = q)
+RECURSIVE ExpandStars(_, _)
+ExpandStars(fr, items) ==
+  IF items = <<>> THEN <<>>
+  ELSE LET it == Head(items) IN
+       (IF it.e.t = "star"
+        THEN LET cs == StarCols(fr, it.e.q) IN [k \in Idx(cs) |-> [n |-> "", e |-> [t |-> "col", q |-> it.e.q, name |-> fr[cs[k]].name]]]
+        ELSE << [n |-> it.n, e |-> it.e] >>) \o ExpandStars(fr, Tail(items))
+\* a star over an input that is not in the frame, or one of whose columns has lost its name: no meaning given
+StarBad(fr, items) == \E m \in Idx(items) : items[m].e.t = "star" /\
+                         (StarCols(fr, items[m].e.q) = <<>> \/ \E i \in Idx(fr) : fr[i].src = items[m].e.q /\ fr[i].name = "")
+
 Select(st, s) ==
-  LET es == [m \in Idx(s.items) |-> s.items[m].e]
+  LET items == ExpandStars(st.frame, s.items)
+      es == [m \in Idx(items) |-> items[m].e]
       sc == ExprsScope(st.frame, es)
       keys == SelectSeq([i \in Idx(st.frame) |-> i], LAMBDA i : st.frame[i].key)
-      nf == [m \in Idx(s.items) |-> Col(ItemName(s.items[m]), ItemSrc(st.frame, s.items[m]))]
+      nf == [m \in Idx(items) |-> Col(ItemName(items[m]), ItemSrc(st.frame, items[m]))]
   IN
-  IF sc # "ok" THEN Bad(st, sc)
+  IF StarBad(st.frame, s.items) THEN Unsup(st)
+  ELSE IF sc # "ok" THEN Bad(st, sc)
   ELSE IF st.grouped THEN Unsup(st)
   ELSE [ st EXCEPT
       !.frame = Shadow(nf),
       !.known = TRUE,
       !.W = Lift(st, LAMBDA w : { [w EXCEPT !.rows =
-                 LET vals == ItemVals(st, w, s.items) IN
+                 LET vals == ItemVals(st, w, items) IN
                  [i \in Idx(w.rows) |-> [v |-> vals[i], key |-> w.rows[i].key]]] }) ]
 
 \* select !{..}: `this.*` minus the named columns (each must resolve, as in select).  `this.*` is
